@@ -972,3 +972,66 @@ pub fn edit_staked_settings(group: Pubkey, admin: Pubkey, settings: marginfi::in
 pub fn propagate_staked_settings(group: Pubkey, bank: Pubkey, rem: Vec<AccountMeta>) -> Ix {
     mk(A::PropagateStakedSettings { marginfi_group: group, staked_settings: staked_settings_key(&group), bank }, I::PropagateStakedSettings {}, rem)
 }
+
+// ---------------------------------------------------------------- venue instructions (Drift), see venue.rs
+
+#[allow(clippy::too_many_arguments)]
+pub fn drift_deposit(group: Pubkey, account: Pubkey, authority: Pubkey, bank: Pubkey, oracle: Option<Pubkey>, signer_tokens: Pubkey, d: &crate::venue::DriftBank, mint: Pubkey, token_program: Pubkey, amount: u64) -> Ix {
+    mk(
+        A::DriftDeposit {
+            group,
+            marginfi_account: account,
+            authority,
+            bank,
+            drift_oracle: oracle,
+            liquidity_vault_authority: liquidity_vault_auth(&bank).0,
+            liquidity_vault: liquidity_vault(&bank).0,
+            signer_token_account: signer_tokens,
+            drift_state: d.state,
+            integration_acc_2: d.user,
+            integration_acc_3: d.user_stats,
+            integration_acc_1: d.spot_market,
+            drift_spot_market_vault: d.market_vault,
+            mint,
+            drift_program: drift_mocks::ID,
+            token_program,
+            system_program: system_program::id(),
+        },
+        I::DriftDeposit { amount },
+        vec![],
+    )
+}
+
+#[allow(clippy::too_many_arguments)]
+pub fn drift_withdraw(group: Pubkey, account: Pubkey, authority: Pubkey, bank: Pubkey, oracle: Option<Pubkey>, destination: Pubkey, d: &crate::venue::DriftBank, mint: Pubkey, token_program: Pubkey, amount: u64, withdraw_all: Option<bool>, rem: Vec<AccountMeta>) -> Ix {
+    mk(
+        A::DriftWithdraw {
+            group,
+            marginfi_account: account,
+            authority,
+            bank,
+            drift_oracle: oracle,
+            liquidity_vault_authority: liquidity_vault_auth(&bank).0,
+            liquidity_vault: liquidity_vault(&bank).0,
+            destination_token_account: destination,
+            drift_state: d.state,
+            integration_acc_2: d.user,
+            integration_acc_3: d.user_stats,
+            integration_acc_1: d.spot_market,
+            drift_spot_market_vault: d.market_vault,
+            drift_reward_oracle: None,
+            drift_reward_spot_market: None,
+            drift_reward_mint: None,
+            drift_reward_oracle_2: None,
+            drift_reward_spot_market_2: None,
+            drift_reward_mint_2: None,
+            drift_signer: d.signer,
+            mint,
+            drift_program: drift_mocks::ID,
+            token_program,
+            system_program: system_program::id(),
+        },
+        I::DriftWithdraw { amount, withdraw_all },
+        rem,
+    )
+}
